@@ -25,7 +25,7 @@ LEVEL_TEXT = ("Exploration: hundreds to thousands of generated inverse problems 
               "independent totals and database-text stoichiometry. Completeness of the model search is not asserted.")
 FLOORS = {"quick": 150, "thorough": 1500}
 SHARDS = {"quick": 4, "thorough": 4}
-BUDGET = {"quick": 150, "thorough": 420, "replay": 1}
+BUDGET = {"quick": 250, "thorough": 700, "replay": 1}
 
 SKIP_EL = ("H", "O", "e")
 
@@ -376,10 +376,20 @@ def verify(case, comps, numbers, heads, rows, printed, summary, toler, chem, ctx
                 fail("fraction_sign", "%s: mixing fraction of solution %d is negative: %r" % (tag, numbers[j], alpha[j]))
         if abs(alpha[-1] - 1.0) > 1e-9:
             fail("fraction_final", "%s: fraction of the final solution is %r, not 1" % (tag, alpha[-1]))
+        # known finding F4 (the solver's final verification of the sign restrictions is dead code): a wrong-signed transfer below
+        # 0.1 % of the largest transfer of the model is counted, not alarmed (strict in the registered replay)
+        big = max([abs(x[j]) for j in range(nph) if phases[j] != "H2O(g)"] + [0.0])
+        big_all = max([abs(v) for v in x] + [0.0])
         for j, (p, con, force) in enumerate(inv["phases"]):
-            if con == "dis" and x[j] < -(tol10 * 1.05 + 1e-13):
+            wrong = (con == "dis" and x[j] < -(tol10 * 1.05 + 1e-13)) or (con == "pre" and x[j] > (tol10 * 1.05 + 1e-13))
+            if not wrong:
+                continue
+            if not strict and abs(x[j]) <= 1e-3 * (big_all if p == "H2O(g)" else big):
+                ctx.event("known_F4:small_wrong_signed_transfer")
+                continue
+            if con == "dis":
                 fail("dissolve_only", "%s: dissolve-only phase %s has transfer %r" % (tag, p, x[j]))
-            if con == "pre" and x[j] > (tol10 * 1.05 + 1e-13):
+            else:
                 fail("precipitate_only", "%s: precipitate-only phase %s has transfer %r" % (tag, p, x[j]))
         # ---- (d) value inside its range
         if rng and range_failed and not strict:
@@ -401,7 +411,11 @@ def verify(case, comps, numbers, heads, rows, printed, summary, toler, chem, ctx
                 if lo > hi + s:
                     fail("range_order", "%s: %s: reported minimum %r exceeds the reported maximum %r" % (tag, what, lo, hi))
                 if v < lo - s or v > hi + s:
-                    fail("range", "%s: %s = %r lies outside its reported range [%r, %r]" % (tag, what, v, lo, hi))
+                    # known finding F3: the range LPs often stop at a vertex that is not optimal (no notice); the reported interval
+                    # is then too narrow and may miss the model's own value.  Counted; alarmed only in the registered replay.
+                    if strict:
+                        fail("range", "%s: %s = %r lies outside its reported range [%r, %r]" % (tag, what, v, lo, hi))
+                    ctx.event("known_F3:value_outside_reported_range")
         # ---- (a) necessary feasibility of every element balance (13-digit values, independent totals and stoichiometry)
         for e in E:
             vrows = chem.rows_of(e)
